@@ -12,6 +12,8 @@ import (
 	"strings"
 	"sync"
 	"time"
+
+	"golang.org/x/tools/go/ssa"
 )
 
 type KnownFinding struct {
@@ -40,7 +42,8 @@ func loadKnownFindings() *KnownFindings {
 	return kf
 }
 
-func (r *Run) matchKnown(jr *JobResult, ob *ObligResult) *KnownFinding {
+func (r *Run) matchKnown(jr *JobResult, ob *ObligResult) []*KnownFinding {
+	var out []*KnownFinding
 	for i := range r.known.Findings {
 		k := &r.known.Findings[i]
 		if k.Status != "known" || k.Property != r.o.Prop {
@@ -52,43 +55,98 @@ func (r *Run) matchKnown(jr *JobResult, ob *ObligResult) *KnownFinding {
 		if k.Oblig != "" && !strings.Contains(ob.ID, k.Oblig) {
 			continue
 		}
-		return k
+		out = append(out, k)
 	}
-	return nil
+	return out
 }
 
 var reportedKnown sync.Map
 
+func (r *Run) reportKnown(k *KnownFinding) {
+	key := k.Property + "|" + k.What
+	if _, dup := reportedKnown.LoadOrStore(key, true); !dup {
+		line := fmt.Sprintf("KNOWN-FINDING: property=%s %s", k.Property, k.What)
+		fmt.Println(line)
+		r.findings = append(r.findings, line)
+	}
+}
+
+// declsFor returns declarations for variables mentioned in the patterns that the query did not need.
+func (r *Run) declsFor(q *Query, jr *JobResult, patterns ...string) string {
+	var sb strings.Builder
+	done := map[string]bool{}
+	for _, pattern := range patterns {
+		rest := pattern
+		for {
+			i := strings.Index(rest, "|")
+			if i < 0 {
+				break
+			}
+			j := strings.Index(rest[i+1:], "|")
+			if j < 0 {
+				break
+			}
+			name := rest[i+1 : i+1+j]
+			rest = rest[i+j+2:]
+			if !q.Decl[name] && !done[name] {
+				if srt, ok := jr.VarSorts[name]; ok {
+					fmt.Fprintf(&sb, "(declare-fun |%s| () %s)\n", name, srt)
+					done[name] = true
+				}
+			}
+		}
+	}
+	return sb.String()
+}
+
 func (r *Run) handleCounterexample(jr *JobResult, ob *ObligResult) int {
-	if k := r.matchKnown(jr, ob); k != nil {
-		key := k.Property + "|" + k.What
-		if _, dup := reportedKnown.LoadOrStore(key, true); !dup {
-			line := fmt.Sprintf("KNOWN-FINDING: property=%s %s", k.Property, k.What)
-			fmt.Println(line)
-			r.findings = append(r.findings, line)
+	if ks := r.matchKnown(jr, ob); len(ks) > 0 {
+		var excl []string
+		for _, k := range ks {
+			if k.Exclude == "" {
+				// the whole obligation is the finding
+				r.reportKnown(k)
+				ob.Verdict = "known finding: " + k.What
+				return 0
+			}
+			if ob.q == nil {
+				continue
+			}
+			qk := &Query{Text: r.declsFor(ob.q, jr, k.Exclude) + ob.q.Text + "(assert " + k.Exclude + ")\n", Decl: ob.q.Decl}
+			res := r.pool.Solve(qk, r.o.Timeout, false)
+			switch res.Status {
+			case "sat":
+				r.reportKnown(k)
+				ob.Verdict += "known finding: " + k.What + "; "
+			case "unsat":
+			default:
+				msg := fmt.Sprintf("INCONCLUSIVE harness=%s case=%d oblig=%s (query restricted to known-finding pattern: %s %s)", jr.Harness, jr.Case, ob.ID, res.Status, firstLine(res.Raw))
+				fmt.Println(msg)
+				r.problems = append(r.problems, msg)
+				return 2
+			}
+			excl = append(excl, k.Exclude)
 		}
-		ob.Verdict = "known finding: " + k.What
-		if k.Exclude == "" {
-			return 0
-		}
-		// look for a different violation of the same obligation
-		if ob.q == nil {
-			return 0
-		}
-		q2 := &Query{Text: ob.q.Text + "(assert (not " + k.Exclude + "))\n", VarList: ob.q.VarList, Nodes: ob.q.Nodes}
-		res := r.pool.Solve(q2, r.o.Timeout, true)
-		switch res.Status {
-		case "unsat":
-			ob.Verdict += " (no other counterexample outside the recorded pattern)"
-			return 0
-		case "sat":
-			ob.Model = res.Model
-			ob.Verdict = "counterexample outside the known-finding pattern"
-		default:
-			msg := fmt.Sprintf("INCONCLUSIVE harness=%s case=%d oblig=%s (re-query excluding known finding: %s %s)", jr.Harness, jr.Case, ob.ID, res.Status, firstLine(res.Raw))
-			fmt.Println(msg)
-			r.problems = append(r.problems, msg)
-			return 2
+		if ob.q != nil {
+			text := r.declsFor(ob.q, jr, excl...) + ob.q.Text
+			for _, e := range excl {
+				text += "(assert (not " + e + "))\n"
+			}
+			q2 := &Query{Text: text, VarList: ob.q.VarList, Nodes: ob.q.Nodes, Cells: ob.q.Cells, Decl: ob.q.Decl}
+			res := r.pool.Solve(q2, r.o.Timeout, true)
+			switch res.Status {
+			case "unsat":
+				ob.Verdict += "(no counterexample outside the recorded patterns)"
+				return 0
+			case "sat":
+				ob.Model = res.Model
+				ob.Verdict = "counterexample outside the known-finding patterns"
+			default:
+				msg := fmt.Sprintf("INCONCLUSIVE harness=%s case=%d oblig=%s (re-query excluding known findings: %s %s)", jr.Harness, jr.Case, ob.ID, res.Status, firstLine(res.Raw))
+				fmt.Println(msg)
+				r.problems = append(r.problems, msg)
+				return 2
+			}
 		}
 	}
 	path, err := r.writeReplay(jr, ob)
@@ -246,4 +304,163 @@ func harnessAssumptions(prop string) []string {
 		return nil
 	}
 	return m[prop]
+}
+
+// cmdReplay re-runs a stored counterexample natively against the current /repo.
+func cmdReplay(args []string) int {
+	var prop, file string
+	for i := 0; i+1 < len(args); i += 2 {
+		switch args[i] {
+		case "-prop":
+			prop = args[i+1]
+		case "-file":
+			file = args[i+1]
+		}
+	}
+	_ = prop
+	b, err := os.ReadFile(file)
+	if err != nil {
+		fmt.Println(err)
+		return 2
+	}
+	var rep struct {
+		Harness string `json:"harness"`
+		Oblig   string `json:"obligation"`
+		Kind    string `json:"kind"`
+		Prop    string `json:"property"`
+	}
+	if err := json.Unmarshal(b, &rep); err != nil {
+		fmt.Println(err)
+		return 2
+	}
+	ld, err := LoadRepo(nil)
+	if err != nil {
+		fmt.Println(err)
+		return 2
+	}
+	out, err := NativeReplay(ld, rep.Harness, file)
+	fmt.Print(out)
+	if err != nil {
+		fmt.Println("replay error:", err)
+		return 2
+	}
+	if (rep.Kind == "assert" && strings.Contains(out, "VX-ASSERT-FAILED "+rep.Oblig+"\n")) || (rep.Kind == "panic" && strings.Contains(out, "VX-PANIC")) {
+		fmt.Printf("VIOLATION property=%s replay=%s\n", rep.Prop, file)
+		return 1
+	}
+	fmt.Println("not reproduced on the current tree")
+	return 0
+}
+
+// cmdSelftest: translator validation. Every VT_* function (returning uint64, no parameters) is run
+// through the symbolic executor (where it must fold to a constant) and natively; results must agree.
+func cmdSelftest(args []string) int {
+	ld, err := LoadRepo(dumpPkgs)
+	if err != nil {
+		fmt.Fprintln(os.Stderr, "selftest: load failed:", err)
+		return 2
+	}
+	type vt struct {
+		name string
+		pkg  string
+		val  uint64
+	}
+	var tests []vt
+	byPkg := map[string][]string{}
+	for _, sp := range ld.SSAPkgs {
+		for name, m := range sp.Members {
+			fn, ok := m.(*ssa.Function)
+			if !ok || !strings.HasPrefix(name, "VT_") {
+				continue
+			}
+			var res uint64
+			err := protect(func() {
+				x := NewExec(ld)
+				x.unwind = 0
+				v, _ := x.callFunc(fn, nil, nil, x.c.True, fn.Pos())
+				t, ok := v.(*Term)
+				if !ok || !t.IsConst() {
+					x.fail("%s did not fold to a constant", name)
+				}
+				res = t.K
+			})
+			if err != nil {
+				fmt.Printf("SELFTEST-FAIL %s: %v\n", name, err)
+				return 2
+			}
+			pd := strings.TrimPrefix(sp.Pkg.Path(), modPath+"/internal/")
+			tests = append(tests, vt{name: name, pkg: pd, val: res})
+			byPkg[pd] = append(byPkg[pd], name)
+		}
+	}
+	bad := 0
+	for pd, names := range byPkg {
+		sort.Strings(names)
+		out, err := nativeVT(ld, pd, names)
+		if err != nil {
+			fmt.Printf("SELFTEST-FAIL native run for %s: %v\n%s\n", pd, err, out)
+			return 2
+		}
+		for _, t := range tests {
+			if t.pkg != pd {
+				continue
+			}
+			want := fmt.Sprintf("VT %s %d\n", t.name, t.val)
+			if !strings.Contains(out, want) {
+				fmt.Printf("SELFTEST-MISMATCH %s: encoder=%d native output:\n%s\n", t.name, t.val, grepLines(out, "VT "+t.name+" "))
+				bad++
+			}
+		}
+	}
+	fmt.Printf("selftest: %d translator-validation scenarios, %d mismatches\n", len(tests), bad)
+	if bad > 0 {
+		return 2
+	}
+	return 0
+}
+
+func grepLines(s, pat string) string {
+	var out []string
+	for _, l := range strings.Split(s, "\n") {
+		if strings.Contains(l, pat) {
+			out = append(out, l)
+		}
+	}
+	return strings.Join(out, "\n")
+}
+
+func nativeVT(ld *Loaded, pkgDir string, names []string) (string, error) {
+	ov, err := harnessOverlay(true)
+	if err != nil {
+		return "", err
+	}
+	tmp, err := os.MkdirTemp("", "vxvt")
+	if err != nil {
+		return "", err
+	}
+	defer os.RemoveAll(tmp)
+	sp := ld.SSAPkgs[modPath+"/internal/"+pkgDir]
+	var reg strings.Builder
+	fmt.Fprintf(&reg, "package %s\n\nimport (\n\t\"fmt\"\n\t\"testing\"\n)\n\nfunc TestZZVxVT(t *testing.T) {\n", sp.Pkg.Name())
+	for _, n := range names {
+		fmt.Fprintf(&reg, "\tfmt.Printf(\"VT %s %%d\\n\", %s())\n", n, n)
+	}
+	reg.WriteString("}\n")
+	ov[filepath.Join(repoDir, "internal", pkgDir, "zz_vx_vt_test.go")] = []byte(reg.String())
+	rep := map[string]string{}
+	i := 0
+	for k, v := range ov {
+		i++
+		f := filepath.Join(tmp, fmt.Sprintf("f%d_%s", i, filepath.Base(k)))
+		os.WriteFile(f, v, 0o644)
+		rep[k] = f
+	}
+	ovb, _ := json.Marshal(map[string]interface{}{"Replace": rep})
+	ovf := filepath.Join(tmp, "overlay.json")
+	os.WriteFile(ovf, ovb, 0o644)
+	cmd := exec.Command("go", "test", "-vet=off", "-count=1", "-overlay", ovf, "-run", "^TestZZVxVT$", "-v", "-timeout", "300s", "./internal/"+pkgDir+"/")
+	cmd.Dir = repoDir
+	cmd.Env = goEnv()
+	out, err := cmd.CombinedOutput()
+	return string(out), err
 }
